@@ -938,3 +938,30 @@ def pairing_with_helpers(F, funcs, is_start, is_end):
             ok = bool(ends) and must_pass(f.cfg_for(c), c, ends)
             out.append((f, c, k_, ok, '%d closing call(s)' % len(ends)))
     return out
+
+
+def delegate(F, f):
+    """If f only forwards to a helper defined in the same file (`return helper(args...);`), returns (helper, {param name: text of the argument});
+    the caller can then judge the helper's body with the arguments spelled out.  Else None."""
+    body = next((n for n in f.walk() if n.get('k') == 'Compound'), None)
+    if body is None or len(body.get('c', [])) != 1 or body['c'][0].get('k') != 'Return' or not body['c'][0].get('c'):
+        return None
+    e = body['c'][0]['c'][0]
+    while e.get('k') in ('Construct', 'Cast', 'Temp', 'Paren') and len(e.get('c', [])) == 1:
+        e = e['c'][0]
+    if e.get('k') != 'Call' or e.get('opc'):
+        return None
+    for ck in F.callee_keys(e):
+        g = F.funcs.get(ck)
+        if g is not None and g.file == f.file and g is not f:
+            args = e['c'][1:] if e.get('mc') else e['c']
+            if len(args) == len(g.params):
+                return g, {p['n']: render(a) for p, a in zip(g.params, args)}
+    return None
+
+
+def subst_names(text, sub):
+    import re
+    for k, v in sub.items():
+        text = re.sub(r'(?<![\w>.])%s\b' % re.escape(k), lambda m_: v, text)
+    return text
